@@ -576,3 +576,75 @@ def edge_statements(kmax):
     for sid, lines in EDGE_LOOP_EXITS:
         out.append((sid, list(lines), dict(op="loop-exit", kind="-", form="stmt", leaves=0)))
     return out
+
+
+# ---------------------------------------------------------------- Colang 1.0: flow declarations (`priority` / `meta`) anywhere
+# The 1.0 control grammar with a third leaf: a flow-level declaration statement (`priority N`, or a `meta` block),
+# which the parser accepts at every statement position - at the top of the flow, and inside the then / else block of an
+# `if`, a `while` body, a `when` branch.  The parser turns it into a `meta` element at the front of the block it was
+# written in; the loader of the runtime moves the declarations of a flow to the flow level.  All programs up to the
+# node bound that contain at least one declaration, each under every flow header (the header modifiers are a `meta`
+# element of their own at the top of the flow) and with both spellings leading.
+V1M_BLOCKS = _make2(
+    leaves=("user", "bot", "prio"), terms=("return",), loopterms=("break", "continue"),
+    when_forms=((1, False), (2, False)),
+)
+V1M_HEADERS = (("flow", "define flow t"), ("subflow", "define subflow t"), ("extension", "define extension flow t"))
+V1M_PRIO_FORMS = (("priority {v}",), ("meta", "  priority: {v}"))
+V1M_PRIO_VALUES = ("2", "0.5", "3")
+
+
+def has_prio(block):
+    for s in block:
+        if s[0] == "prio":
+            return True
+        if s[0] == "while" and has_prio(s[1]):
+            return True
+        if s[0] == "if" and any(has_prio(b) for b in s[1]):
+            return True
+        if s[0] == "when" and any(has_prio(b) for b in s[2]):
+            return True
+    return False
+
+
+@functools.lru_cache(None)
+def v1_meta_structures(n):
+    """all blocks of exactly n nodes of the 1.0 control grammar + declaration leaf that contain a declaration"""
+    return tuple(b for b in V1M_BLOCKS(n, False) if has_prio(b))
+
+
+def _render_v1m_block(block, ind, c, out, phase):
+    pad = "  " * ind
+    for s in block:
+        k = s[0]
+        if k == "prio":
+            form = V1M_PRIO_FORMS[(c.prio + phase) % len(V1M_PRIO_FORMS)]
+            val = V1M_PRIO_VALUES[c.prio % len(V1M_PRIO_VALUES)]
+            out.extend(pad + ln.format(v=val) for ln in form)
+            c.prio += 1
+        elif k == "while":
+            out.append(f"{pad}while $c")
+            _render_v1m_block(s[1], ind + 1, c, out, phase)
+        elif k == "if":
+            out.append(f"{pad}if $c")
+            _render_v1m_block(s[1][0], ind + 1, c, out, phase)
+            if len(s[1]) > 1:
+                out.append(f"{pad}else")
+                _render_v1m_block(s[1][1], ind + 1, c, out, phase)
+        elif k == "when":
+            _, ncase, bodies, _ = s
+            for i in range(ncase):
+                out.append(f"{pad}{'when' if i == 0 else 'else when'} user w{c.ev}")
+                c.ev += 1
+                _render_v1m_block(bodies[i], ind + 1, c, out, phase)
+        else:
+            render_v1_block((s,), ind, c, out)
+
+
+def render_v1_meta(block, header, phase):
+    """-> (source of the program, body of the flow at indentation 0 - the text a `start_flow` event carries)"""
+    c = _Ctr()
+    c.prio = 0
+    body = []
+    _render_v1m_block(block, 0, c, body, phase)
+    return dict(V1M_HEADERS)[header] + "\n" + "\n".join(_ind(body, 1)) + "\n", "\n".join(body) + "\n"
